@@ -177,6 +177,20 @@ pub fn mpq_view(path: &Path, read: bool) -> Result<MpqView, String> {
     })
 }
 
+/// names (of `names`) that `Archive::find_file` does not find
+pub fn mpq_has(path: &Path, names: &[String]) -> Result<Vec<String>, String> {
+    g(|| {
+        let a = wow_mpq::Archive::open(path).map_err(|e| format!("open: {e}"))?;
+        let mut absent = vec![];
+        for n in names {
+            if !matches!(a.find_file(n), Ok(Some(_))) {
+                absent.push(n.clone());
+            }
+        }
+        Ok(absent)
+    })
+}
+
 pub fn mpq_read(path: &Path, name: &str) -> Result<Vec<u8>, String> {
     g(|| {
         let mut a = wow_mpq::Archive::open(path).map_err(|e| format!("open: {e}"))?;
